@@ -531,7 +531,18 @@ unsigned int ares_dns_rr_get_ttl(const ares_dns_rr_t *rr)
   if (rr == NULL) {
     return 0;
   }
-  return rr->ttl;
+
+  /* A record handed out by the query cache carries the time it has spent in
+   * the cache (0 otherwise), which is taken off every TTL read from it. */
+  if (rr->parent == NULL) {
+    return rr->ttl; /* LCOV_EXCL_LINE: DefensiveCoding */
+  }
+
+  if (rr->parent->ttl_decrement > rr->ttl) {
+    return 0;
+  }
+
+  return rr->ttl - rr->parent->ttl_decrement;
 }
 
 static void *ares_dns_rr_data_ptr(ares_dns_rr_t *dns_rr, ares_dns_rr_key_t key,
